@@ -151,7 +151,7 @@ PROPS["C03"] = {
     "theorems": lambda: thms("C03") + [t for t in module_theorems("JediVerif.Properties.C02", "Jedi.C02") if any(k in t[0] for k in ("bigint_", "fp_", "montgomery", "limbs_unique", "fq_", "fr_"))],
     "streams": stream_set([("asm", 10), ("bigint", 4), ("fp", 8)], ["asm", "asm+nobmi2", "portable64", "portable32"], ["asm", "asm+nobmi2", "asm-clang", "asm-O0", "portable64", "portable64-O0", "portable32", "portable32-O0", "asan", "asan-portable"], alias=None),
     "filter": None,
-    "not_modelled": "AArch64 and ARMv6-M assembly sources: cannot be executed or (Thumb-1) assembled here; x86-64 assembly is tied by direct calls of every routine (both families) judged against the same Nat-level contract the portable models are proved to meet; no instruction-level model yet",
+    "not_modelled": "AArch64 and ARMv6-M assembly sources: cannot be executed or (Thumb-1) assembled here; x86-64 assembly: instruction-level model (Impl/X86.lean) of the programs regenerated from the .s files by asm2lean (cross-checked against GNU as); theorems for the add/subtract/multiply2 families (Properties/C03.lean); multiply/square/Montgomery-reduce (both families) and cpu_supports_bmi2_adx have the model but no theorem: they are tied by the judge, which runs the model on every asm op line and demands the real routine's exact output (plus the Nat-level contract)",
 }
 PROPS["C05"] = {
     "translators": ["consts", "tower"],
@@ -194,8 +194,8 @@ PROPS["C09"] = {
 }
 PROPS["C10"] = {
     "translators": ["consts"],
-    "lean_targets": prop_modules("C10"),
-    "theorems": lambda: thms("C10"),
+    "lean_targets": prop_modules("C10", extra=("JediVerif.Properties.C10b",)),
+    "theorems": lambda: thms("C10", extra=(("JediVerif.Properties.C10b", "Jedi.C10"),)),
     "streams": stream_set([("sampling", 8), ("gt", 4)], ["asm", "portable32"], ALLCFG + ["asan"]),
     "filter": lambda l: not l.startswith(("gt_exp", "gt_ops")),
     "hypotheses": ["H-card: #E(Fq) = h1*r and #E'(Fq2) = h2*r for the cofactor constants (membership of cofactor-cleared points in the order-r subgroup); the judge additionally checks r*P = 0 on every sampled point"],
